@@ -295,6 +295,21 @@ CLAIMS = {
         technique="static analysis: abstract evaluation + canonical-form comparison of the generated constraint schema against a reference schema (ast)",
         ref="DESIGN.md §3 C07",
     ),
+    "C08": dict(
+        text=(
+            "Decides C08 relative to reference schemas: (i) active_vertices_not_adjacent posts exactly one exclusion per edge on "
+            "eight graphs, and on seven grid shapes (1x1, 1xN, Nx1, square and non-square) its shifted-slice form excludes exactly "
+            "the pairs that are edges of the row-major grid graph; (ii) the graph form of ..._and_not_segmenting is not_adjacent "
+            "plus the C04 connectivity schema applied to the negated flags on the same graph; (iii) the grid form posts the "
+            "reference diagonal-rank schema (rank range sufficient, border cells forced roots, at most one strictly lower active "
+            "diagonal neighbour, distinct diagonal ranks). Deviations are triaged by enumerating the projection onto the flags "
+            "against 'no two adjacent active, inactive connected' on the same grid graph, which also decides agreement between "
+            "the grid specialisation and the explicit-graph form (VIOLATION with witness, else undecided). (ALG-6) grid graph."
+        ),
+        note="Trusted: exactness of the diagonal-rank reference schema (DESIGN.md C08); abstract evaluator.",
+        technique="static analysis: abstract evaluation + canonical-form comparison of the generated constraint schema against a reference schema (ast)",
+        ref="DESIGN.md §3 C08",
+    ),
 }
 
 NOT_APPLICABLE = {
